@@ -95,6 +95,9 @@ def stepLine (w : W) (toks : List String) : W × String :=
   | ["reset", p] => match parsePass p with
     | some p => ({ pubPass := p }, "ok")
     | none => (w, "bad-op")
+  | ["fresh", p] => match parsePass p with
+    | some p => ({ pubPass := p, files := w.files }, "ok")     -- another wallet; exported files travel
+    | none => (w, "bad-op")
   | ["dump"] => (w, dump w)
   | ["dumpdur"] => (w, dumpDur w)
   | _ => match parseOp toks with
